@@ -61,6 +61,15 @@ BASES = {
             "f2": ("function f2(int a) -> int { ST s; s.fld = a * 2; return s.fld + 1; }", []),
             "f3": ("function f3(int a) -> int { g3[1] = g3[1] + a; return g3[0] + g3[1]; }", []),
         }, "entries": ["f0"]},
+    # a struct type defined in one module and used by functions of others (the using module imports the defining one)
+    "sharedstruct": {
+        "globals": "", "types": {"f2": "struct ST { int fld; float w; }"},
+        "funcs": {
+            "f0": ("export function f0(int a) -> int { ST t = f2(a); t.fld = t.fld + 1; return f3(t) + f1(a); }", ["f2", "f3", "f1"]),
+            "f1": ("function f1(int a) -> int { return a - 1; }", []),
+            "f2": ("function f2(int a) -> ST { ST s; s.fld = a; s.w = 0.5; return s; }", []),
+            "f3": ("function f3(ST s) -> int { return s.fld * 2; }", ["f2"]),
+        }, "entries": ["f0"]},
     "tworoots": {
         "globals": "", "types": "",
         "funcs": {
@@ -427,8 +436,8 @@ def run(tier, seed):
     cov = {"states": max(1, stats.get("linker_states", 0)), "transitions": max(1, stats.get("AddModule_calls", 0) + stats.get("link_histories", 0)),
            "traces_validated_against_impl": stats.get("link_histories", 0), "samples": samples,
            "evaluations": stats.get("link_histories", 0), "distinct_nontrivial": stats.get("nontrivial", 0),
-           "rule": "six base programs (chain, diamond, fan-out with two exported entries, overloads across modules, globals+struct, two roots "
-                   "sharing imports); every set partition of their functions into <=3 modules with an acyclic module graph; each module "
+           "rule": "seven base programs (chain, diamond, fan-out with two exported entries, overloads across modules, globals+struct, a struct "
+                   "type shared across modules, two roots sharing imports); every set partition of their functions into <=3 modules with an acyclic module graph; each module "
                    "imports exactly the modules it calls into, with the import statements placed first / after a function (thorough: also "
                    "after a global / split); modules compiled separately in dependency order by the real compiler, pickled like nslc.py, "
                    "found by name; link histories = every set of explicitly added modules that contains all roots, in EVERY order of "
